@@ -112,7 +112,7 @@ I_shr(D, n, s, a, k, ct) ==
   IF ct = "Int" /\ ~WordCount(k) /\ "big_count_shift_zero" \in D THEN Val(0) ELSE Val(F_shr(n, s, a, k))
 \* @type: (Set(Str), Int, Bool, Int, Int, Str) => {k: Str, v: Int};
 I_lshl(D, n, s, a, k, ct) ==
-  CASE ct = "UInt" /\ "lshl_uint_count_type_error" \in D -> [k |-> "type_error", v |-> 0]
+  CASE s /\ ct = "UInt" /\ "lshl_uint_count_type_error" \in D -> [k |-> "type_error", v |-> 0]   \* signed left operands only
     [] ct = "Int" /\ ~WordCount(k) /\ "big_count_shift_zero" \in D -> Val(0)
     [] OTHER -> Val(F_lshl(n, s, a, k))
 \* @type: (Set(Str), Int, Bool, Int, Int, Str) => {k: Str, v: Int};
